@@ -218,19 +218,44 @@ Fixpoint adjust_all (o : options) (h : list organism) (l : list species) : res (
   end.
 
 (* ---------- Species.countOffspring ---------- *)
-Fixpoint count_offspring (orgs : list organism) (expected : Z) (skim : float) : Z * float :=
-  match orgs with
-  | [] => (expected, skim)
-  | x :: l =>
-    let int_part := f_trunc_Z (ffloor (o_exp x)) in
-    let frac := fmod1 (o_exp x) in
-    let expected := expected + int_part in
-    let skim := PrimFloat.add skim frac in
-    if PrimFloat.leb 1%float skim then
-      let si := ffloor skim in
-      count_offspring l (expected + f_trunc_Z si) (PrimFloat.sub skim si)
-    else count_offspring l expected skim
-  end.
+(* written once over a small number structure: the float instance is what runs against Go, the
+   real instance (proofs/QuotaSpec.v) is what the apportionment theorems of C09 are about *)
+Record qnum (F : Type) : Type := {
+  q_add : F -> F -> F;
+  q_sub : F -> F -> F;
+  q_ge1 : F -> bool;          (* x >= 1.0 *)
+  q_floor : F -> F;           (* math.Floor *)
+  q_floorZ : F -> Z;          (* int(math.Floor(x)) *)
+  q_frac : F -> F             (* math.Mod(x, 1.0) *)
+}.
+Arguments q_add {F}. Arguments q_sub {F}. Arguments q_ge1 {F}. Arguments q_floor {F}.
+Arguments q_floorZ {F}. Arguments q_frac {F}.
+
+Section CountOffspring.
+  Context {F : Type} (N : qnum F).
+  (* exps: the members' ExpectedOffspring in species order *)
+  Fixpoint count_offspring_gen (exps : list F) (expected : Z) (skim : F) : Z * F :=
+    match exps with
+    | [] => (expected, skim)
+    | e :: l =>
+      let expected := expected + q_floorZ N e in
+      let skim := q_add N skim (q_frac N e) in
+      if q_ge1 N skim then
+        let si := q_floor N skim in
+        count_offspring_gen l (expected + q_floorZ N skim) (q_sub N skim si)
+      else count_offspring_gen l expected skim
+    end.
+End CountOffspring.
+
+Definition float_qnum : qnum float := {|
+  q_add := PrimFloat.add; q_sub := PrimFloat.sub;
+  q_ge1 := fun x => PrimFloat.leb 1%float x;
+  q_floor := ffloor;
+  q_floorZ := fun x => f_trunc_Z (ffloor x);
+  q_frac := fmod1 |}.
+
+Definition count_offspring (orgs : list organism) (expected : Z) (skim : float) : Z * float :=
+  count_offspring_gen float_qnum (map o_exp orgs) expected skim.
 
 (* ---------- Population.purgeZeroOffspringSpecies ---------- *)
 Fixpoint count_all (h : list organism) (l : list species) (skim : float) (total : Z) : res (list species * Z) :=
